@@ -187,6 +187,45 @@ pub fn run(ctx: &mut Ctx) {
             let inner = Envelope::new("holder").add_assertion("deep", shared.clone()).wrap_envelope();
             fam.push(("aliased".into(), Envelope::new("aliased").add_assertion("one", shared.clone()).add_assertion("two", shared.clone()).add_assertion("three", inner)));
         }
+        // short-lived receivers: single-allocation temporaries (wrap_envelope() of a kept envelope allocates exactly
+        // one element) are created, compared and dropped in turn, so that a temporary is likely to occupy the
+        // storage of the one dropped just before - a verdict must not depend on where the receiver lives
+        {
+            let set = gen::digest_set(&[flat[flat.len() / 2].1.digest]);
+            let va = e.elide_removing_set_with_action(&set, &action(gen::Act::Elide, &key));
+            let vb = e.elide_removing_set_with_action(&set, &action(gen::Act::Compress, &key));
+            let differ = !crate::props::c14::ref_identical(&tree_of(&va), &tree_of(&vb));
+            let (ca, cb) = (va.wrap_envelope(), vb.wrap_envelope());
+            let mut bad: Option<String> = None;
+            for round in 0..4 {
+                ctx.eval();
+                ctx.count("short_lived_receivers");
+                {
+                    let ta = va.wrap_envelope();
+                    if !ta.is_identical_to(&ca) {
+                        bad = Some(format!("round {}: a fresh wrap of the elided variant is not identical to another wrap of it", round));
+                    }
+                }
+                {
+                    let tb = vb.wrap_envelope();
+                    if !tb.is_identical_to(&cb) {
+                        bad = Some(format!("round {}: a fresh wrap of the compressed variant is not identical to another wrap of it", round));
+                    }
+                    if differ && tb.is_identical_to(&ca) {
+                        bad = Some(format!("round {}: a fresh wrap of the compressed variant is identical to a wrap of the elided variant", round));
+                    }
+                }
+                {
+                    let ta = va.wrap_envelope();
+                    if differ && (ta == cb) {
+                        bad = Some(format!("round {}: a fresh wrap of the elided variant == a wrap of the compressed variant", round));
+                    }
+                }
+            }
+            if let Some(b) = bad {
+                ctx.violation("identity-depends-on-receiver-storage", &b, J::obj(vec![("a", jhex(&va)), ("b", jhex(&vb))]));
+            }
+        }
         // identity survives encoding and decoding, for EVERY member of the family
         let k = rng.below(fam.len());
         for i in 0..fam.len() {
